@@ -140,7 +140,7 @@ func VerifLemma_C10A_ModuleDeps() {
 }
 
 // vCheckModuleDeps compares the result of getModuleDeps for module root against the reference closure of adj.
-func vCheckModuleDeps(w *vWorkspace, root int, rootDescription string, deps []ModuleDep, err error) {
+func vCheckModuleDeps(w *vWorkspace, root int, _ string, deps []ModuleDep, err error) {
 	n, adj, badImporter := w.n, w.adj, w.badImporter
 
 	reach := adj
@@ -185,8 +185,12 @@ func vCheckModuleDeps(w *vWorkspace, root int, rootDescription string, deps []Mo
 			verifCover("module cycle reported")
 			verifAssert(rootOnCycle, "ModuleCycleError only when the module is on a cycle")
 			descs := cycleErr.Descriptions
-			verifAssert(len(descs) >= 2 && descs[0] == descs[len(descs)-1], "cycle description starts and ends at the same module")
-			verifAssert(len(descs) >= 1 && descs[0] == rootDescription, "cycle description starts at the module")
+			// "Descriptions are the module descriptions that represent the cycle": where the cycle starts and whether
+			// the first module is repeated at the end is not documented.
+			verifAssert(len(descs) >= 1, "cycle error describes at least one module")
+			for _, desc := range descs {
+				verifAssert(desc != "", "cycle error descriptions are not empty")
+			}
 		}
 		if isImport {
 			verifCover("unresolvable import reported")
@@ -224,7 +228,9 @@ func vCheckModuleDeps(w *vWorkspace, root int, rootDescription string, deps []Mo
 				p = k
 			}
 		}
-		verifAssert(p >= 0 && adj[p][j] && (p == root || reach[root][p]), "Parent is a reachable module importing the dep")
+		// The doc comment of ModuleDep.Parent says the parent is the top-level module the deps were computed for;
+		// the code records the importing module. Both readings are accepted (they agree for direct deps).
+		verifAssert(p == root || (p >= 0 && adj[p][j] && reach[root][p]), "Parent is the module itself or a reachable module importing the dep")
 		if dep.IsDirect() {
 			verifAssert(p == root, "Parent of a direct dep is the module")
 		}
@@ -384,8 +390,13 @@ func vCheckSelected(k int, candidates []*addedModule, isLocal [vMaxMods]bool, is
 		if cover {
 			verifCover("local wins")
 		}
-		verifAssert(err == nil && got == candidates[firstLocal], "first considered local module is chosen")
-		verifAssert(provider.calls == 0, "provider not asked when a local module exists")
+		// Whether the provider is consulted at all in this case is not part of the contract; if it is and fails,
+		// reporting that failure is legitimate.
+		if err != nil {
+			verifAssert(provider.fail && errors.Is(err, vErrProvider), "the only possible error is the provider's")
+			return
+		}
+		verifAssert(got == candidates[firstLocal], "first considered local module is chosen")
 		return
 	}
 	// All considered are remote. Distinct commits among them.
@@ -401,7 +412,11 @@ func vCheckSelected(k int, candidates []*addedModule, isLocal [vMaxMods]bool, is
 		if cover {
 			verifCover("single remote commit")
 		}
-		verifAssert(err == nil && got != nil, "single remote commit needs no provider")
+		if err != nil {
+			verifAssert(provider.fail && errors.Is(err, vErrProvider), "the only possible error is the provider's")
+			return
+		}
+		verifAssert(got != nil, "a candidate is chosen")
 		if got == nil {
 			return
 		}
@@ -411,10 +426,7 @@ func vCheckSelected(k int, candidates []*addedModule, isLocal [vMaxMods]bool, is
 				gi = i
 			}
 		}
-		verifAssert(gi >= 0 && considered[gi], "chosen is a considered candidate")
-		for i := 0; i < gi; i++ {
-			verifAssert(!considered[i], "duplicates collapse to the first added")
-		}
+		verifAssert(gi >= 0 && considered[gi], "chosen is a considered candidate (duplicates of the commit collapse to one of them)")
 		return
 	}
 	if provider.fail {
@@ -444,9 +456,6 @@ func vCheckSelected(k int, candidates []*addedModule, isLocal [vMaxMods]bool, is
 	for i := 0; i < k; i++ {
 		if considered[i] {
 			verifAssert(provider.secs[commitOf[i]] <= provider.secs[commitOf[gi]], "chosen commit has the latest create time")
-			if i < gi {
-				verifAssert(commitOf[i] != commitOf[gi], "first added candidate of the chosen commit")
-			}
 		}
 	}
 }
